@@ -58,8 +58,9 @@ def make_sets(ctx):
     for i, (wu, wm, wa) in enumerate(combos if not ctx.quick() else combos[:3]):
         a = docs.simple_doc(rng, "urn:a%d" % i, with_uris=wu, with_models=wm, with_aliases=wa)
         b = docs.simple_doc(rng, "urn:b%d" % i, extra_uris=["urn:a%d" % i] if wu else [], with_uris=True)
-        sets.append(dict(files=[("a.xml", a), ("b.xml", b)], bad=None))
-    sets.append(dict(files=[("a.xml", docs.simple_doc(rng, "urn:only"))], bad=None))
+        # file names are data too: one set is named with the characters a shell pattern gives a meaning to
+        sets.append(dict(files=[("a.xml", a), ("b.xml", b)] if i != 1 else [("a plant[rev2].xml", a), ("b*?.xml", b)], bad=None))
+    sets.append(dict(files=[("only [a-z].xml", docs.simple_doc(rng, "urn:only"))], bad=None))
     sets.append(dict(files=[("a.xml", docs.simple_doc(rng, "urn:ok")), ("b.xml", docs.simple_doc(rng, "urn:badalias", bad="alias"))], bad="alias"))
     sets.append(dict(files=[("a.xml", docs.simple_doc(rng, "urn:badnode", bad="nodeid"))], bad="nodeid"))
     sets.append(dict(files=[("a.xml", docs.simple_doc(rng, "urn:ok2")), ("b.xml", "<UANodeSet><broken")], bad="xml"))
